@@ -72,13 +72,14 @@ type childResult struct {
 	Evals   int            `json:"evals,omitempty"`   // c18
 	Traces  [][]string     `json:"traces,omitempty"`  // model request lines (hooked builds)
 	Hooks   bool           `json:"hooks"`             // built with the event hooks
+	Entry   bool           `json:"hook_entry"`        // … including verifhook.LazyEntry (per index entry)
 	Notes   []string       `json:"notes,omitempty"`
 	Hist    map[string]int `json:"hist,omitempty"`
 }
 
 func childMain(spec string) int {
 	parts := strings.Split(spec, ":")
-	res := &childResult{Mode: parts[0], Hooks: hooksAvailable, Hist: map[string]int{}}
+	res := &childResult{Mode: parts[0], Hooks: hooksAvailable, Entry: hookHasEntry, Hist: map[string]int{}}
 	atoi := func(i int) int64 {
 		if i >= len(parts) {
 			return 0
